@@ -269,6 +269,9 @@ func (rt *pxRt) newConnection(id string) (goat.RpcReadWriter, error) {
 		return nil, errors.New("verif: dial failed")
 	}
 	c := rt.newConn(id, hn)
+	if plan == "okdeaf" { // the dialled connection's Read does not look at its context
+		c.deaf.Store(true)
+	}
 	rt.mu.Lock()
 	rt.dialed[id] = c
 	rt.mu.Unlock()
